@@ -43,19 +43,31 @@ type Chooser interface {
 	Intn(label string, n int) int
 }
 
-// Tape replays recorded choices.
+// Tape replays recorded choices. A replay whose course differs from the recorded one (a verdict differed, so a later
+// choice is asked for in another place) may run off the tape: with Lenient set that is remembered in Off, and the caller
+// reports the difference of the verdicts; otherwise it is an error of the harness.
 type Tape struct {
-	Vals []uint32
-	i    int
+	Vals    []uint32
+	i       int
+	Lenient bool
+	Off     bool
 }
 
 func (t *Tape) Intn(label string, n int) int {
 	if t.i >= len(t.Vals) {
+		if t.Lenient {
+			t.Off = true
+			return 0
+		}
 		kit.Failf("tape exhausted at %q", label)
 	}
 	v := int(t.Vals[t.i])
 	t.i++
 	if v >= n {
+		if t.Lenient {
+			t.Off = true
+			return v % n
+		}
 		kit.Failf("tape value %d out of range %d at %q", v, n, label)
 	}
 	return v
